@@ -30,6 +30,7 @@ import (
 	"runtime/debug"
 	"strings"
 	"sync"
+	"sync/atomic"
 	"testing"
 	"testing/synctest"
 	"time"
@@ -172,6 +173,47 @@ func (w *vfC40World) fire(yields int) {
 	})
 }
 
+// guard runs f; a panic inside library code is recorded as a violation instead of killing the process (a panic on a
+// goroutine started by the library cannot be recovered, which is why the harness normally starts the workers itself,
+// see startWorkers). If the panicking frame was inside the queue implementation it held the queue mutex (every queue
+// method runs under q.mu without defer): release it so that the remaining goroutines can leave the bubble.
+func (w *vfC40World) guard(d *Dissolver, what string, f func()) (panicked bool) {
+	defer func() {
+		if r := recover(); r != nil {
+			panicked = true
+			stack := string(debug.Stack())
+			w.mu.Lock()
+			if w.bad == "" {
+				w.bad = fmt.Sprintf("%s panicked: %v\n%s", what, r, vfTrunc(stack, 1800))
+			}
+			w.mu.Unlock()
+			if strings.Contains(stack, "(*queueImpl).") {
+				if q, ok := d.queue.(*queueImpl); ok {
+					if q.mu.TryLock() {
+						q.mu.Unlock()
+					} else {
+						q.mu.Unlock()
+					}
+				}
+			}
+		}
+	}()
+	f()
+	return false
+}
+
+// startWorkers does what Dissolver.Run does (numWorkers goroutines executing runWorker), under guard.
+// Dissolver.Run itself is exercised by TestVF_C40_Run.
+func (w *vfC40World) startWorkers(d *Dissolver, s *vfC40Script, wg *sync.WaitGroup) {
+	for i := 0; i < d.numWorkers; i++ {
+		wg.Add(1)
+		go func(i int) {
+			defer wg.Done()
+			w.guard(d, fmt.Sprintf("worker %d (runWorker)", i), d.runWorker)
+		}(i)
+	}
+}
+
 func (w *vfC40World) add(e vfC40Event) {
 	w.mu.Lock()
 	w.events = append(w.events, e)
@@ -201,6 +243,11 @@ func (w *vfC40World) jobFn(s *vfC40Script, j int) Job {
 		d := spec.Dur[len(spec.Dur)-1]
 		if k-1 < len(spec.Dur) {
 			d = spec.Dur[k-1]
+		}
+		if k > spec.Fail+1 {
+			// a run that must not exist (already recorded as a violation): make it take virtual time so that a
+			// library that keeps re-running the job cannot livelock the bubble at one virtual instant
+			d = 600_000_000
 		}
 		if d > 0 {
 			time.Sleep(time.Duration(d) * time.Microsecond)
@@ -249,7 +296,10 @@ func vfC40Run(s *vfC40Script) (w *vfC40World, verdict string) {
 		if s.TrigJob == j && s.TrigKind == 2 {
 			w.fire(s.YieldA)
 		}
-		err := d.Submit(w.jobFn(s, j))
+		var err error
+		if w.guard(d, fmt.Sprintf("Submit(j%d)", j), func() { err = d.Submit(w.jobFn(s, j)) }) {
+			err = errors.New("panicked")
+		}
 		w.add(vfC40Event{Kind: vfC40EvSubmitEnd, Job: j, Err: err != nil})
 	}
 	for j, spec := range s.Jobs {
@@ -257,8 +307,8 @@ func vfC40Run(s *vfC40Script) (w *vfC40World, verdict string) {
 			submit(j)
 		}
 	}
-	_ = d.Run()
 	var wg sync.WaitGroup
+	w.startWorkers(d, s, &wg)
 	for sub := 0; sub < s.NSub; sub++ {
 		wg.Add(1)
 		go func(sub int) {
@@ -302,7 +352,7 @@ func vfC40Run(s *vfC40Script) (w *vfC40World, verdict string) {
 		time.Sleep(time.Duration(s.CloseAt) * time.Microsecond)
 	}
 	w.add(vfC40Event{Kind: vfC40EvCloseCalled})
-	_ = d.Close()
+	w.guard(d, "Close", func() { _ = d.Close() })
 	w.add(vfC40Event{Kind: vfC40EvCloseReturned})
 	synctest.Wait()
 	w.add(vfC40Event{Kind: vfC40EvSettled})
@@ -316,7 +366,7 @@ func vfC40Run(s *vfC40Script) (w *vfC40World, verdict string) {
 	synctest.Wait()
 	wg.Wait()
 	// a second Close must be harmless for the accounting (nothing may start)
-	_ = d.Close()
+	w.guard(d, "second Close", func() { _ = d.Close() })
 	time.Sleep(time.Second)
 	synctest.Wait()
 	return w, verdict
@@ -498,6 +548,7 @@ func TestVF_C40(t *testing.T) {
 		if sum.failingJobs > 0 {
 			c.Label("has_failing_job")
 		}
+		c.Label("workers_started_by_harness_copy_of_Run")
 		if sum.startsAfterClose > 0 {
 			c.Label("run_started_between_close_return_and_idle")
 		}
@@ -518,6 +569,92 @@ func TestVF_C40(t *testing.T) {
 		}
 		c.Extra("job_runs", sum.totalRuns)
 		c.Extra("jobs", len(s.Jobs))
+		if verdict != "" {
+			vfC40Failed.Store(true)
+		}
 		return verdict
+	})
+}
+
+var vfC40Failed atomic.Bool
+
+// TestVF_C40_Run: the same property through Dissolver.Run (workers are library goroutines, a panic there would kill
+// the process, hence skipped when TestVF_C40 already found a violation). m jobs queued before Run, each run takes
+// 1ms of virtual time: at the first quiescent point at least one run must be in progress, and after a
+// virtual hour every job ran failures+1 times and succeeded once; after Close nothing starts.
+func TestVF_C40_Run(t *testing.T) {
+	if vfC40Failed.Load() {
+		t.Skip("TestVF_C40 reported a violation")
+	}
+	vfCheck(t, "C40", func(rt *rapid.T, c *vfCase) string {
+		s := &vfC40Script{TrigJob: -1, Late: true}
+		s.Workers = rapid.IntRange(1, 8).Draw(rt, "workers")
+		m := rapid.IntRange(1, 12).Draw(rt, "jobs")
+		for i := 0; i < m; i++ {
+			f := rapid.SampledFrom([]int{0, 0, 1, 2}).Draw(rt, "fail")
+			j := vfC40Job{Fail: f, Phase: 0}
+			for k := 0; k <= f; k++ {
+				j.Dur = append(j.Dur, 1000)
+			}
+			s.Jobs = append(s.Jobs, j)
+		}
+		c.Describe("Run(): " + s.String())
+		c.Label("workers_started_by_Run")
+		if s.Workers >= 2 {
+			for _, j := range s.Jobs {
+				if j.Fail > 0 {
+					c.Nontrivial(c.desc)
+					break
+				}
+			}
+		}
+		return vfC40Bubble(t, func() string {
+			w := &vfC40World{jobs: make([]vfC40JobState, len(s.Jobs)), trig: make(chan struct{})}
+			d := New(s.Workers)
+			for j := range s.Jobs {
+				if err := d.Submit(w.jobFn(s, j)); err != nil {
+					return fmt.Sprintf("Submit(j%d) on an open queue failed: %v", j, err)
+				}
+			}
+			if err := d.Run(); err != nil {
+				return fmt.Sprintf("Run failed: %v", err)
+			}
+			synctest.Wait()
+			w.mu.Lock()
+			inProgress := 0
+			for _, st := range w.jobs {
+				inProgress += st.running
+			}
+			w.mu.Unlock()
+			verdict := ""
+			// (the worker count itself is not part of the statement: only progress is required here)
+			if inProgress < 1 {
+				verdict = fmt.Sprintf("%d workers, %d queued jobs of 1ms: no run in progress at the first idle point after Run", s.Workers, m)
+			}
+			time.Sleep(time.Hour)
+			synctest.Wait()
+			if verdict == "" {
+				verdict = w.vfC40Complete(s, map[int]bool{0: true}, "checkpoint")
+			}
+			_ = d.Close()
+			synctest.Wait()
+			w.mu.Lock()
+			before := len(w.events)
+			w.mu.Unlock()
+			if err := d.Submit(w.jobFn(s, 0)); err == nil && verdict == "" {
+				verdict = "Submit after Close reported success"
+			}
+			time.Sleep(time.Hour)
+			synctest.Wait()
+			w.mu.Lock()
+			if verdict == "" && w.bad != "" {
+				verdict = w.bad
+			}
+			if verdict == "" && len(w.events) != before {
+				verdict = "a job ran after Close"
+			}
+			w.mu.Unlock()
+			return verdict
+		})
 	})
 }
